@@ -43,7 +43,6 @@ package scorch
 //@ assume func segment.PersistedSegment.Path(seg)
 //@ assume func filepath.Base(path)
 //@ assume func segment.FieldStatsReporter.UpdateFieldStats(fsr, stats)
-//@ assume func fmt.Errorf(format, a)
 
 // ---- helpers of the snapshot types (trusted: reference counting, sizes and statistics are not
 // what C01/C20 are about) ----
@@ -101,7 +100,7 @@ package scorch
 //@   locks
 //@   requires s != nil && next != nil && s.root != nil && !held(s.rootLock) && rheld(s.rootLock) == 0 && len(s.root.segment) <= 1048576
 //@   requires forall(k, 0, len(s.root.segment), s.root.segment[k] != nil && s.root.segment[k].segment != nil)
-//@   requires all(x, uint64, implies(in(x, next.obsoletes), next.obsoletes[x] != nil))
+//@   requires all(x, uint64, implies(in(next.obsoletes, x), next.obsoletes[x] != nil))
 //@   requires s.nextSnapshotEpoch < 4611686018427387904
 //@   modifies fields(Scorch), fields(IndexSnapshot), lock(s.rootLock), map(s.ineligibleForRemoval)
 //@   ensures !held(s.rootLock) && rheld(s.rootLock) == 0
